@@ -185,7 +185,7 @@ def run_tlc(pid, module, cfg=None, env=None, workers=None, simulate=None, depth=
 
 # --------------------------------------------------------------------------- harness workers
 
-def _shard_worker(binary, subcmd, cases_path, lo, hi, out_path, timeout, extra_args, stats):
+def _shard_worker(binary, subcmd, cases_path, lo, hi, out_path, timeout, extra_args, stats, env=None):
     """Run cases [lo, hi) of cases_path through `gverif subcmd`, one answer line per case.
     Watchdog: no answer within `timeout` s => kill, record {"outcome":"hang"}, restart after it.
     Premature exit (abort / stack overflow) => record {"outcome":"abort"}."""
@@ -193,7 +193,7 @@ def _shard_worker(binary, subcmd, cases_path, lo, hi, out_path, timeout, extra_a
     with open(out_path, "w") as out:
         while pos < hi:
             p = subprocess.Popen([binary, subcmd, cases_path, str(pos), str(hi)] + list(extra_args),
-                                 stdout=subprocess.PIPE, stderr=subprocess.DEVNULL)
+                                 stdout=subprocess.PIPE, stderr=subprocess.DEVNULL, env=env)
             fd = p.stdout.fileno()
             buf = b""
             dead = False
@@ -229,7 +229,7 @@ def _shard_worker(binary, subcmd, cases_path, lo, hi, out_path, timeout, extra_a
                 p.wait()
 
 
-def run_workers(subcmd, cases_path, n_cases, out_path, shards=None, timeout=10, extra_args=()):
+def run_workers(subcmd, cases_path, n_cases, out_path, shards=None, timeout=10, extra_args=(), env=None):
     """Replay n_cases lines of cases_path into the real code; writes one observation per line to out_path
     (same order).  Returns counters {hang, abort}."""
     binary = build_harness()
@@ -239,7 +239,7 @@ def run_workers(subcmd, cases_path, n_cases, out_path, shards=None, timeout=10, 
     parts = [out_path + ".part%d" % i for i in range(shards)]
     ths = []
     for (lo, hi), part in zip(bounds, parts):
-        th = threading.Thread(target=_shard_worker, args=(binary, subcmd, cases_path, lo, hi, part, timeout, extra_args, stats))
+        th = threading.Thread(target=_shard_worker, args=(binary, subcmd, cases_path, lo, hi, part, timeout, extra_args, stats, (dict(os.environ, **env) if env else None)))
         th.start()
         ths.append(th)
     for th in ths:
